@@ -27,6 +27,11 @@ def conforms_py(S, ty, v) -> bool:
     if k == "enum":
         return type(v) is S.R.enums[ty[1]]
     if k == "lit":
+        if any(a[0] == "e" for a in ty[1]):
+            # a literal containing enum members: exactly one of its arguments (the member itself / the plain value of the
+            # same class) -- `_structure_enum_literal` hands out the literal's own argument (Lean `litConf`)
+            args = [S.R.val(a) for a in ty[1]]
+            return any(v is a if a.__class__ in S.R._enum_index else (type(v) is type(a) and v == a) for a in args)
         return any(v == S.R.val(a) for a in ty[1])
     if k in ("list", "seq", "mseq"):
         return type(v) is list and all(conforms_py(S, ty[1], e) for e in v)
@@ -82,7 +87,7 @@ def run(chk: framework.Check):
     drv = lean.Driver()
     n_worlds = 120 if chk.tier == "quick" else 1500
     corr_fail = []
-    for G, S, w in streams.worlds(chk, drv, n_worlds, unions=True, nt=True, coercible=True):
+    for G, S, w in streams.worlds(chk, drv, n_worlds, unions=True, nt=True, coercible=True, enum_lits=True):
         for ty, x, xv in streams.typed_values(chk, G, S, w, n_types=4, n_values=1):
             has_union = bool(gen.reach_unions(w, ty))
             enum_lit = gen.has_enum_lit(w, ty)
@@ -138,6 +143,8 @@ def run(chk: framework.Check):
     # implementation-only extended stream (unions, NamedTuples, registry hooks, one-shot iterables)
     from harness import ext
     ext.run_c02(chk, 150 if chk.tier == "quick" else 1500)
+    # implementation-only: Literal[...] over members of mix-in enums, position-wise equal literals in one process
+    ext.run_enum_literals(chk, 40 if chk.tier == "quick" else 400, "C02")
     drv.close()
 
 
